@@ -1,63 +1,10 @@
 #!/venv/bin/python
 """Write a copy of /repo/rex in which every local variable is renamed (suffix _r): a whole-tree behaviour-preserving edit used to
 find rules that depend on local names.  usage: tools/rename_locals.py <outdir> [--defs]   (--defs also renames nested function names)"""
-import ast, os, shutil, sys
-out = sys.argv[1]; defs = "--defs" in sys.argv
+import os, shutil, sys
+sys.path.insert(0, os.path.dirname(os.path.dirname(os.path.abspath(__file__))))
+from rexsa.transforms import rename_locals
+out = sys.argv[1]
 shutil.rmtree(out, ignore_errors=True)
 shutil.copytree("/repo/rex", os.path.join(out, "rex"), ignore=shutil.ignore_patterns("__pycache__"))
-n_files = n_names = 0
-for root, _, files in os.walk(os.path.join(out, "rex")):
-    for f in files:
-        if not f.endswith(".py"):
-            continue
-        p = os.path.join(root, f)
-        tree = ast.parse(open(p).read())
-        stores, banned = set(), set()
-        for n in tree.body:  # module-level names
-            for x in ast.walk(n) if isinstance(n, (ast.Assign, ast.AnnAssign, ast.AugAssign, ast.Import, ast.ImportFrom)) else []:
-                if isinstance(x, ast.Name):
-                    banned.add(x.id)
-                if isinstance(x, ast.alias):
-                    banned.add((x.asname or x.name).split(".")[0])
-        nested_defs = set()
-        for fn in ast.walk(tree):
-            if isinstance(fn, (ast.FunctionDef, ast.AsyncFunctionDef, ast.Lambda)):
-                a = fn.args
-                for arg in a.posonlyargs + a.args + a.kwonlyargs + ([a.vararg] if a.vararg else []) + ([a.kwarg] if a.kwarg else []):
-                    banned.add(arg.arg)
-            if isinstance(fn, (ast.FunctionDef, ast.AsyncFunctionDef, ast.ClassDef)):
-                banned.add(fn.name)
-                if isinstance(fn, ast.FunctionDef):
-                    for sub in ast.walk(fn):
-                        if isinstance(sub, ast.FunctionDef) and sub is not fn:
-                            nested_defs.add(sub.name)
-            if isinstance(fn, (ast.Global, ast.Nonlocal)):
-                banned.update(fn.names)
-            if isinstance(fn, ast.ClassDef):
-                for st in fn.body:
-                    for x in ast.walk(st) if isinstance(st, (ast.Assign, ast.AnnAssign)) else []:
-                        if isinstance(x, ast.Name):
-                            banned.add(x.id)
-        for fn in ast.walk(tree):
-            if isinstance(fn, (ast.FunctionDef, ast.AsyncFunctionDef)):
-                for x in ast.walk(fn):
-                    if isinstance(x, ast.Name) and isinstance(x.ctx, ast.Store):
-                        stores.add(x.id)
-        if defs:
-            banned -= {d for d in nested_defs if not d.startswith("__")}
-            # only rename nested defs that are not also methods / module functions
-            top = {n.name for n in tree.body if isinstance(n, (ast.FunctionDef, ast.ClassDef))} | {m.name for c in ast.walk(tree) if isinstance(c, ast.ClassDef) for m in c.body if isinstance(m, ast.FunctionDef)}
-            ren_defs = nested_defs - top
-        else:
-            ren_defs = set()
-        L = {s for s in stores if s not in banned and not s.startswith("__") and s != "_"}
-        for x in ast.walk(tree):
-            if isinstance(x, ast.Name) and (x.id in L or x.id in ren_defs):
-                x.id = x.id + "_r"; n_names += 1
-            if isinstance(x, ast.FunctionDef) and x.name in ren_defs:
-                x.name = x.name + "_r"
-        src = ast.unparse(tree)
-        compile(src, p, "exec")
-        open(p, "w").write(src + "\n")
-        n_files += 1
-print(f"renamed {n_names} name occurrences in {n_files} files -> {out}")
+print(f"renamed {rename_locals(out, defs='--defs' in sys.argv)} name occurrences -> {out}")
